@@ -84,7 +84,7 @@ def modify_lines(kind, val):
     if kind == "exchange":
         return [f" -exchange_gammas {int(val) % 2}"], r"^-exchange_gammas\s", rf"^-exchange_gammas\s+{int(val) % 2}$"
     if kind == "surface":
-        return [f" -thickness {g}"], r"^-thickness\s", rf"^-thickness\s+{g}$"
+        return [f" -thickness {g}"], r"^-(thickness|new_def)\s", rf"^-thickness\s+{g}$"
     if kind == "ss":
         return [" -solid_solution CaSr", "  -component Calcite", f"   -moles {g}"], r"^-moles\s", rf"^-moles\s+{g}$"
     if kind == "gas":
